@@ -24,7 +24,10 @@ CONSTANTS ChannelNames,   \* the set of channels
           IdReaders,      \* the channels whose reader does not unescape (the design: {})
           IdWriters,      \* the channels whose writer does not escape   (the design: {})
           MaxLen,         \* texts: all sequences over Alphabet of length <= MaxLen, plus Extra
-          MaxGen
+          MaxGen,
+          XChannels,      \* the channels that carry ST_Xstring text (cell text, shared strings, rich-text runs, cached
+                          \* strings of formulas): XEnc is applied before Esc on write, XDec after Unesc on read
+          XEndBug         \* FALSE = the design; TRUE = the bounds check of XEnc misses a look-alike at the very end of a text
 
 Alphabet == {"x", "&", "<", ">", "\"", "'", ";"}
 Amp  == <<"&", "a", "m", "p", ";">>
@@ -58,16 +61,44 @@ UnescOk(t) ==
 Unesc(t) == IF WellEscaped(t) THEN UnescOk(t) ELSE t
 
 (* legal content of a double-quoted attribute value / of element text: no raw < or ", every & starts an entity *)
-Safe(t) == WellEscaped(t) /\ \A i \in DOMAIN t : t[i] \notin {"<", "\""}
+Safe(t) == WellEscaped(t) /\ \A i \in DOMAIN t : t[i] \notin {"<", "\"", "^"}
 
-Write(ch, t) == IF ch \in IdWriters THEN t ELSE Esc(t)
-Read(ch, w)  == IF ch \in IdReaders THEN w ELSE Unesc(w)
+(* ---- ST_Xstring (ECMA-376 Part 1, 22.9.2.19; helper::string_helper::encode_xstring / decode_xstring) ------------- *)
+(* "^" stands for a character XML cannot carry; _xHHHH_ is an escape for the UTF-16 unit HHHH; a literal underscore   *)
+(* that starts such a look-alike must be written as _x005F_.                                                          *)
+HexDigits == {"0", "1", "4", "5", "F"}
+LookAlikeAt(t, i) == /\ i + 6 <= Len(t) /\ t[i] = "_" /\ t[i + 1] = "x" /\ t[i + 6] = "_"
+                     /\ \A j \in (i + 2)..(i + 5) : t[j] \in HexDigits
+U5F  == <<"_", "x", "0", "0", "5", "F", "_">>
+UCtl == <<"_", "x", "0", "0", "0", "1", "_">>
+(* the writer's test: the design looks at every position; the deviant one needs a character BEHIND the look-alike *)
+Protects(t, i) == LookAlikeAt(t, i) /\ (~XEndBug \/ i + 7 <= Len(t))
+RECURSIVE XEncFrom(_, _)
+XEncFrom(t, i) == IF i > Len(t) THEN <<>>
+                  ELSE (IF t[i] = "^" THEN UCtl ELSE IF Protects(t, i) THEN U5F ELSE <<t[i]>>) \o XEncFrom(t, i + 1)
+XEnc(t) == XEncFrom(t, 1)
+UnitChar(t, i) == LET h == SubSeq(t, i + 2, i + 5) IN
+                  IF h = <<"0", "0", "5", "F">> THEN "_" ELSE IF h = <<"0", "0", "0", "1">> THEN "^"
+                  ELSE IF h = <<"0", "0", "4", "1">> THEN "A" ELSE "?"
+RECURSIVE XDecFrom(_, _)
+XDecFrom(t, i) == IF i > Len(t) THEN <<>>
+                  ELSE IF LookAlikeAt(t, i) THEN <<UnitChar(t, i)>> \o XDecFrom(t, i + 7)
+                  ELSE <<t[i]>> \o XDecFrom(t, i + 1)
+XDec(t) == XDecFrom(t, 1)
+
+Write(ch, t) == LET x == IF ch \in XChannels THEN XEnc(t) ELSE t IN IF ch \in IdWriters THEN x ELSE Esc(x)
+Read(ch, w)  == LET u == IF ch \in IdReaders THEN w ELSE Unesc(w) IN IF ch \in XChannels THEN XDec(u) ELSE u
 
 RECURSIVE SeqsUpTo(_)
 SeqsUpTo(n) == IF n = 0 THEN {<<>>} ELSE SeqsUpTo(n - 1) \cup {Append(s, a) : s \in {q \in SeqsUpTo(n - 1) : Len(q) = n - 1}, a \in Alphabet}
 (* user texts that look like escaped text themselves *)
 Extra == {Amp, Amp \o Amp, <<"x">> \o Lt \o <<"x">>, <<"&">> \o Amp, Quot \o <<"&", ";">>, <<"&", "#", "3", "8", ";">>}
 Texts == SeqsUpTo(MaxLen) \cup Extra
+(* texts of the ST_Xstring channels: up to three of: a look-alike, the literal _x005F_, a near miss, an underscore,   *)
+(* ordinary characters, a character XML cannot carry - i.e. look-alikes at the start, in the middle, at the end, two  *)
+(* in a row, mixtures                                                                                                   *)
+XTokens == { <<"_", "x", "0", "0", "4", "1", "_">>, U5F, <<"_", "x", "0", "0", "4">>, <<"_">>, <<"x">>, <<"&">>, <<"^">> }
+XTexts  == {a \o b \o c : a \in XTokens \cup {<<>>}, b \in XTokens \cup {<<>>}, c \in XTokens \cup {<<>>}}
 
 VARIABLES ch,     \* the channel under consideration (channels are independent)
           text0,  \* the text the user stored
@@ -75,7 +106,9 @@ VARIABLES ch,     \* the channel under consideration (channels are independent)
           gen
 cvars == <<ch, text0, text, gen>>
 
-CInit == ch \in ChannelNames /\ text0 \in Texts /\ text = text0 /\ gen = 0
+CInit == /\ ch \in ChannelNames
+         /\ text0 \in (IF ch \in XChannels THEN Texts \cup XTexts ELSE Texts)
+         /\ text = text0 /\ gen = 0
 SaveLoad == /\ gen < MaxGen
             /\ text' = Read(ch, Write(ch, text))
             /\ gen' = gen + 1
@@ -85,5 +118,5 @@ CSpec == CInit /\ [][SaveLoad]_cvars
 DriftFree   == text = text0
 WrittenSafe == Safe(Write(ch, text))
 (* the law the terms obey, on every text of the universe *)
-Inverse     == Unesc(Esc(text0)) = text0
+Inverse     == Unesc(Esc(text0)) = text0 /\ (ch \in XChannels => (~XEndBug => XDec(XEnc(text0)) = text0))
 =============================================================================
